@@ -180,8 +180,12 @@ impl HalfConnection {
         self.rtt_ms = rtt_ms;
         self.rto_ms = rto_ms;
 
-        // Forget old frame data
-        self.frame_queue.forget_frames(now_ms.saturating_sub(rtt_ms*4), self.send_rate_comp.rtt_ms());
+        // Forget old frame data. Frames are remembered for at least one RTO, which exceeds 4*RTT at
+        // low send rates and after nofeedback expiries. If they were forgotten after 4*RTT alone,
+        // an RTT that has grown beyond four times its estimate (or beyond 600 ms before the first
+        // estimate) would make every acknowledgement arrive for a forgotten frame, so that the
+        // estimate could never be corrected and no fragment would ever be acknowledged again.
+        self.frame_queue.forget_frames(now_ms.saturating_sub((rtt_ms*4).max(rto_ms)), self.send_rate_comp.rtt_ms());
 
         // Fill flush allocation
         self.fill_flush_alloc(now);
